@@ -49,6 +49,11 @@ def import_library():
     import warnings
 
     warnings.filterwarnings("ignore")
+    if os.environ.get("VERIF_WARNINGS") == "error":
+        # (child interpreters of the "warnings as errors" sub-checks) what an application's test configuration typically turns into
+        # exceptions; numeric RuntimeWarnings stay silent - the harness itself casts and overflows on purpose
+        for cat in (UserWarning, DeprecationWarning, FutureWarning, PendingDeprecationWarning):
+            warnings.filterwarnings("error", category=cat)
     import basictdf  # noqa
 
     got = os.path.realpath(os.path.dirname(basictdf.__file__))
